@@ -78,6 +78,7 @@ type Cfg struct {
 	TickSkew                                                          int // 1: hosts tick at different rates (drawn per host: 1x .. 8x)
 	PHold                                                             int // per mille of the parks at state machine / engine yield points after which the task is not resumed for a while (a goroutine that lost the CPU, or the race for a mutex, for long)
 	HoldLen                                                           int // longest hold, in steps
+	ReplayWindow                                                      int // per cent of the restarts of a crashed host during faults after which the other hosts are cut off from each other (not from the restarted one): any leader elected now needs the restarted replica, which is still replaying its log - faults aimed at a restart
 	Ballast                                                           int // 1: every host also runs a single-member ballast shard that keeps the shared snapshot workers busy (see ballast.go)
 	SnapWorkers                                                       int // snapshot workers per NodeHost (default 2)
 	FinalReads                                                        int // 1: in the fair final phase every running replica is asked for a ReadIndex in every round (a read-heavy service: every heartbeat of the leader carries a read confirmation hint)
@@ -226,6 +227,7 @@ func drawCfg(ctx *runner.Ctx) Cfg {
 	c.HoldLen = p("holdlen", pick(s, 100, 30, 300, 800))
 	c.CCWindow = p("ccwindow", 0)
 	c.Ballast = p("ballast", 0)
+	c.ReplayWindow = p("replaywindow", 0)
 	c.SnapWorkers = p("snapworkers", 2)
 	c.FinalReads = p("finalreads", pick(s, 0, 0, 1))
 	if c.Hosts < 1 {
@@ -1235,6 +1237,17 @@ func (s *Sim) restartHost(h *Host) {
 	s.ctx.Count("fault.restart", 1)
 	s.ctx.Ev("restart", uint64(h.id))
 	h.booting = true
+	if s.faultsOn && s.cfg.ReplayWindow > 0 && len(s.hosts) > 2 && s.src.Chance(s.cfg.ReplayWindow, 100) {
+		for a := range s.hosts {
+			for b := range s.hosts {
+				if a != b {
+					s.net.cut[a][b] = a != h.id && b != h.id
+				}
+			}
+		}
+		s.ctx.Count("fault.replay_window", 1)
+		s.ctx.Ev("replaywindow", uint64(h.id))
+	}
 	s.runTask("boot", h, "boot", func() { s.boot(h) })
 }
 
